@@ -26,7 +26,7 @@ ASSUMPTIONS = ["virtual-time loop, inline executor; processing interval = [first
 HOOKNAMES = ["pre_execute", "post_execute", "on_error", "post_save"]
 
 
-def scenario() -> Any:
+def scenario(big: bool = False) -> Any:
     def fin(d: Dict[str, Any]) -> Dict[str, Any]:
         msgs = cm.sort_msgs(d["msgs"])
         A = d["A"]
@@ -59,9 +59,9 @@ def scenario() -> Any:
     mw = st.dictionaries(st.sampled_from(HOOKNAMES), hook, max_size=4)
     msg = cm.message(timeouts=(None, None, None, 0.3, "1"), acks=("sync", "async", None, "sync_fail", "async_fail", "future", "deferred"), cleanups=(0, 0, 0.2, 0.4))
     return st.fixed_dictionaries({
-        "A": st.integers(1, 4), "P": st.integers(0, 3),
+        "A": st.integers(1, 6 if big else 4), "P": st.integers(0, 5 if big else 3),
         "ack_type": st.sampled_from(["when_received", "when_executed", "when_saved"]),
-        "msgs": st.lists(msg, min_size=0, max_size=8),
+        "msgs": st.lists(msg, min_size=0, max_size=14 if big else 8),
         "fail_saves": st.sets(st.integers(0, 7), max_size=4),
         "save_latency": st.sampled_from([0.0, 0.0, 0.1]),
         "mws": st.lists(mw, max_size=2),
@@ -71,7 +71,7 @@ def scenario() -> Any:
 
 def parts(tier: str) -> List[Part]:
     if tier == "thorough":
-        return [Part("histories", "given", shards=16, examples=5000, strategy=scenario, soft_deadline_s=1500)]
+        return [Part("histories", "given", shards=16, examples=12000, strategy=lambda: scenario(True), soft_deadline_s=3000)]
     return [Part("histories", "given", shards=8, examples=600, strategy=scenario, soft_deadline_s=120)]
 
 
